@@ -24,7 +24,7 @@ CONSTANTS
     Flags,       \* scaler flag combinations, subset of {"none","center","std"}
     Faults       \* single-fault mutations of the transform call (C17), subset of FaultAll
 
-FaultAll == {"none", "wrongType", "missingFeatureDim", "missingSampleDim", "extraDim", "renamedDim",
+FaultAll == {"none", "wrongType", "missingFeatureDim", "missingFeatureDimOneVar", "missingSampleDim", "extraDim", "renamedDim",
              "shiftedCoord", "revaluedCoord", "permutedCoordSameValues", "droppedVar", "extraVar",
              "wrongListLen", "datasetForArray"}
 
@@ -80,14 +80,15 @@ Predict(l) ==
 \* as a valid call; "either": the statement does not classify it.
 Verdict(l, f) ==
     CASE f = "none" -> "answered"
-      [] f \in {"wrongType", "missingFeatureDim", "missingSampleDim", "extraDim", "renamedDim",
+      [] f \in {"wrongType", "missingFeatureDim", "missingFeatureDimOneVar", "missingSampleDim", "extraDim", "renamedDim",
                 "shiftedCoord", "revaluedCoord", "droppedVar", "wrongListLen"} -> "refused"
       [] f = "extraVar" -> "answered"                    \* a Dataset carrying additional variables is a valid call
       [] f = "permutedCoordSameValues" -> "either"       \* same labels in another order: not classified
       [] f = "datasetForArray" -> "either"               \* same data wrapped in a one-variable Dataset: not classified
 
 FaultApplies(l, f) ==
-    CASE f \in {"droppedVar", "extraVar"} -> l.kind \in {"DS2same", "DS2diff"} \/ (f = "extraVar" /\ l.kind = "DS1")
+    CASE f = "missingFeatureDimOneVar" -> l.kind = "DS2same"
+      [] f \in {"droppedVar", "extraVar"} -> l.kind \in {"DS2same", "DS2diff"} \/ (f = "extraVar" /\ l.kind = "DS1")
       [] f = "wrongListLen" -> TRUE
       [] f = "datasetForArray" -> l.kind = "DA"
       [] OTHER -> TRUE
@@ -153,7 +154,7 @@ C07_LayoutInvariant ==
 
 \* C17: every listed fault is refused, listed non-faults are answered
 C17_FaultsRefused ==
-    Done => /\ (lay.fault \in {"wrongType", "missingFeatureDim", "missingSampleDim", "extraDim", "renamedDim",
+    Done => /\ (lay.fault \in {"wrongType", "missingFeatureDim", "missingFeatureDimOneVar", "missingSampleDim", "extraDim", "renamedDim",
                                "shiftedCoord", "revaluedCoord", "droppedVar", "wrongListLen"})
                    => pred.verdict = "refused"
             /\ (lay.fault \in {"none", "extraVar"}) => pred.verdict = "answered"
